@@ -48,7 +48,7 @@ def run_tlc(
     try:
         cfgp = tmp / f"{module}.cfg"
         cfgp.write_text(cfg)
-        java_opts = [f"-Xmx{heap}", "-XX:+UseParallelGC"]
+        java_opts = [f"-Xmx{heap}", "-XX:+UseParallelGC", "-XX:ParallelGCThreads=4"]
         if dfs:
             java_opts.append("-Dtlc2.tool.queue.IStateQueue=StateDeque")
         cmd = ["java", *java_opts, "-cp", JAR, "tlc2.TLC", "-workers", str(workers), "-metadir", str(tmp / "meta"),
